@@ -154,7 +154,14 @@ func runCheck(repo, verif, prop, tier string, seed int) int {
 	assumptions := map[string]bool{}
 	var bindingErrs []string
 	usedContracts := map[string]bool{}
-	for _, key := range keys {
+	supportFuncs := map[string]bool{}
+	// obligations of every in-repo function those depend on (callees with contracts) are checked too
+	inSet := map[string]bool{}
+	for _, k := range keys {
+		inSet[k] = true
+	}
+	for qi := 0; qi < len(keys); qi++ {
+		key := keys[qi]
 		c, err := e.verifyFunc(key)
 		if err != nil {
 			return fail("vcgen("+key+")", err)
@@ -163,8 +170,9 @@ func runCheck(repo, verif, prop, tier string, seed int) int {
 		fr := funcReport{Name: fi.fn.FullName(), File: shortFile(e.fset.Position(fi.decl.Pos()).Filename), Clauses: c.con.NClauses,
 			Loops: len(c.con.Loops), Abstracted: c.abstracted, Trusted: c.con.Trusted}
 		for _, o := range c.obls {
-			// obligations of this property: tagged with it, or untagged support obligations
-			if len(o.Tags) == 0 || hasTag(o.Tags, prop) {
+			// obligations of this property: tagged with it, or untagged support obligations; for functions pulled in
+			// as dependencies every obligation counts (the caller relies on their whole contract)
+			if len(o.Tags) == 0 || hasTag(o.Tags, prop) || supportFuncs[key] {
 				all = append(all, o)
 				fr.Obligations++
 			}
@@ -178,6 +186,11 @@ func runCheck(repo, verif, prop, tier string, seed int) int {
 		}
 		for cu := range c.calleesUsed {
 			usedContracts[cu] = true
+			if _, inRepo := e.funcs[cu]; inRepo && !inSet[cu] && e.contracts[cu] != nil && e.contracts[cu].Trusted == "" {
+				inSet[cu] = true
+				keys = append(keys, cu)
+				supportFuncs[cu] = true
+			}
 		}
 	}
 	lemmaObls, lemmaNames := e.lemmaObligations(prop)
@@ -410,7 +423,12 @@ func (e *Engine) lemmaObligations(prop string) ([]*Oblig, []string) {
 		if !hasTag(strings.Split(f[1], ","), prop) {
 			continue
 		}
-		obls = append(obls, &Oblig{Name: "lemma:" + f[0], Kind: "lemma", Func: "spec", Expr: f[2], lemmaFile: filepath.Join(e.verif, "spec", f[2])})
+		o := &Oblig{Name: "lemma:" + f[0], Kind: "lemma", Func: "spec", Expr: f[2], lemmaFile: filepath.Join(e.verif, "spec", f[2])}
+		if len(f) > 3 && f[3] == "smoke" {
+			o.Smoke = true // the hypotheses of the lemma family must be satisfiable
+			o.Name = "lemma-smoke:" + f[0]
+		}
+		obls = append(obls, o)
 		names = append(names, f[0])
 	}
 	return obls, names
